@@ -1072,10 +1072,10 @@ func (w *world) genQuery(r *vh.Rng) query {
 	default:
 		q.hasFilt = true
 		var ss []string
-		for id, mp := range w.points {
+		for _, id := range w.liveIds() { // fixed order: every random choice derives from the seed
 			if r.Bool() {
 				ss = append(ss, id.String())
-				q.fids = append(q.fids, mp.node)
+				q.fids = append(q.fids, w.points[id].node)
 			}
 		}
 		ss = append(ss, uuid.New().String()) // an unknown id is simply not found
